@@ -278,8 +278,63 @@ func checkC17(r *core.Run) {
 				fs = append(fs, m)
 			}
 		}
-		pureOfRuntimeState(r, "C17.pure", "phase two of the XA resource manager", append(fs, reachFrom(w, fs, pDSSQL)...), nil)
+		phase2 := dedupFns(append(fs, reachFrom(w, fs, pDSSQL)...))
+		pureOfRuntimeState(r, "C17.pure", "phase two of the XA resource manager", phase2, nil)
 		r.Floor("C17.pure", 4)
+		// a phase-two request closes only connections that are its own: the receiver, a parameter, or a value this
+		// invocation created — never one taken out of state shared between requests (a field Swap/Load), which
+		// may still carry another request's XA COMMIT / XA ROLLBACK
+		nClose := 0
+		for _, f := range phase2 {
+			if w.IsTestFile(f.Decl.Pos()) || f.Decl.Body == nil {
+				continue
+			}
+			info := f.Pkg.TypesInfo
+			ast.Inspect(f.Decl.Body, func(n ast.Node) bool {
+				c, ok := n.(*ast.CallExpr)
+				if !ok {
+					return true
+				}
+				sel, ok := ast.Unparen(c.Fun).(*ast.SelectorExpr)
+				if !ok || (sel.Sel.Name != "Close" && sel.Sel.Name != "CloseForce") {
+					return true
+				}
+				t := info.TypeOf(sel.X)
+				if t == nil || !(strings.HasSuffix(t.String(), "driver.Conn") || strings.HasSuffix(t.String(), "sql.XAConn") || strings.HasSuffix(t.String(), "sql.Conn")) {
+					return true
+				}
+				// root variable of the receiver expression
+				root := ast.Unparen(sel.X)
+				for {
+					if s2, ok := root.(*ast.SelectorExpr); ok {
+						root = ast.Unparen(s2.X)
+						continue
+					}
+					break
+				}
+				id, ok := root.(*ast.Ident)
+				if !ok {
+					return true
+				}
+				v, ok := info.Uses[id].(*types.Var)
+				if !ok {
+					return true
+				}
+				nClose++
+				r.Sites++
+				r.Fn(f)
+				key := core.ShortKey(f.Obj) + " closes " + core.ExprString(sel.X) + ", a connection of this request"
+				if isParam(f, v) {
+					r.OK("C17.pure", key, w.Pos(c.Pos()), "receiver or parameter")
+					return true
+				}
+				o := origin(f, id, 4)
+				shared := strings.Contains(o, ".Swap(") || strings.Contains(o, ".Load(") || strings.Contains(o, ".LoadAndDelete(") || strings.Contains(o, ".LoadOrStore(") || strings.HasPrefix(o, "global:")
+				r.Check(!shared, "C17.pure", key, w.Pos(c.Pos()), "origin "+o, "the connection closed here was taken out of state shared between requests ("+o+"): it may be the one another phase-two request is still sending its XA COMMIT / XA ROLLBACK on — that branch then gets neither")
+				return true
+			})
+		}
+		_ = nClose
 	}
 	r.Floor("C17.reset", 2)
 	r.Floor("C17.order", 3)
